@@ -18,6 +18,12 @@ go build ./... > $M/build.log 2>&1; BUILD=$?
 go test -vet=off -count=1 . ./cmd/... > $M/suite.log 2>&1; SUITE=$?
 cp $DEMO zz_demo_test.go
 go test -vet=off -count=1 . > $M/mut.log 2>&1; MUT=$?
+if [ $MUT -eq 0 ]; then
+  # some demonstrations only show under the race detector, and only when run alone (state set up by earlier tests hides them)
+  for t in $(grep -o 'func Test[A-Za-z0-9_]*' $DEMO | sed 's/func //'); do
+    go test -race -vet=off -count=1 -run "^$t\$" . >> $M/mut.log 2>&1 || MUT=1
+  done
+fi
 rm -f zz_demo_test.go; git checkout -q -- .
 echo "verify $ID m$K: demo-on-clean=$CLEAN build=$BUILD suite-with-change=$SUITE demo-with-change=$MUT (want 0 0 0 non-zero)"
 if [ $CLEAN -ne 0 ] || [ $BUILD -ne 0 ] || [ $SUITE -ne 0 ] || [ $MUT -eq 0 ]; then echo "NOT CONFIRMED"; exit 3; fi
